@@ -25,7 +25,15 @@
     7. quantifier: get(), get(return_tuple), attribute, pc[...]: wave 3 C02_routes_agree (the four routes deliver the same
          Datum / the float of the same Decimal); both contexts: every theorem is for all [c]; the default singleton and the
          default constructor argument are CODATA2014: pinned verbatim by the translator (fail-closed) and corr (objects
-         "default" and "noarg").  __init__ and get() are pinned verbatim by the translator; the model transcribes them. *)
+         "default" and "noarg").  __init__ and get() are pinned verbatim by the translator; the model transcribes them.
+    8. (wave 4) "every context a program builds", not only the first: the model's context is a function of the year alone
+         ([ctx_of]); that the implementation's is too (no state shared between context objects through the module-level NIST
+         tables behind raw_codata, class attributes or the units registry) is the verbatim pin of __init__ (it only READS
+         raw_codata) + corr: streams oracle:history (2nd and 3rd context of each year built later in the same process, in
+         both orders, each used for a unit conversion first; full enumeration, oracle and model) and oracle:afterwards (the
+         first objects and the singleton asked again at the end, in shuffled order).  Failing histories are minimised by
+         re-executing shorter ones in fresh processes.  Equivalent spellings of the get() call (positional / keyword
+         return_tuple, keyword physical_constant) are drawn per mixed-case request: corr. *)
 From Coq Require Import ZArith List String Ascii Bool QArith Qabs Qpower.
 Require Import QV.Common.Outcome QV.Common.DecC02 QV.Common.StrC02.
 Require Import QV.Gen.Codata2014 QV.Gen.Codata2018 QV.Gen.CodataRaw2014 QV.Gen.CodataRaw2018 QV.Gen.CodataJson2014 QV.Gen.Aliases.
